@@ -665,3 +665,94 @@ package adt
 //@   loop 1 invariant -1 <= rangeindex && forall m *Environment :: {m.DynamicLabel} !fresh(m) ==> m.DynamicLabel == old(m.DynamicLabel) && m.Up == old(m.Up) && m.Vertex == old(m.Vertex)
 //@   ensures [sharedenv] forall m *Environment :: {m.DynamicLabel} !fresh(m) ==> m.DynamicLabel == old(m.DynamicLabel) && m.Up == old(m.Up) && m.Vertex == old(m.Vertex)
 //@   assigns heap
+
+// ---- C01: list length and closedness accumulate as a join ----
+// Every list literal unified into a node contributes (length, closed). The node
+// keeps (maxListLen, listIsClosed); the result must not depend on the order in
+// which the literals are processed: closed is the OR of the contributions (a
+// closed list can never be reopened by a later or earlier open one of the same
+// length), the length never shrinks, and the marker's IsOpen is the AND of the
+// contributions' openness.
+//@ ghost var listErr bool
+//@ spec func closedLit(l *ListLit) bool { forall k int :: 0 <= k && k < len(l.Elems) ==> !isType(l.Elems[k], *Ellipsis) }
+//@ func listErrEffect
+//@   assumed A-int: an error is recorded on the node (ghost: listErr); list bookkeeping is not touched
+//@   ensures listErr
+//@   assigns listErr
+//@ func addErrEffect
+//@   assumed A-int: addErr records err on the node unless it is nil (ghost: listErr); list bookkeeping is not touched
+//@   ensures listErr == (old(listErr) || err != nil)
+//@   assigns listErr
+//@ func listFrame
+//@   assumed A-int: does not touch the list bookkeeping of any node (maxListLen, listIsClosed), the list literal or the task
+//@   assigns heap except all nodeContextState.maxListLen + all nodeContextState.listIsClosed + all ListLit.Elems + allelems(Elem) + all task.node + all task.x
+//@ func (*OpContext).yield
+//@   assumed A-int: runs the comprehension, calling the closure once per yielded value; list bookkeeping is not touched
+//@   assigns heap except all nodeContextState.maxListLen + all nodeContextState.listIsClosed + all ListLit.Elems + allelems(Elem) + all task.node + all task.x
+//@ func (*OpContext).subField
+//@   assumed A-int
+//@   assigns heap except all nodeContextState.maxListLen + all nodeContextState.listIsClosed + all ListLit.Elems + allelems(Elem) + all task.node + all task.x
+//@ func (*nodeContext).updateCyclicStatus
+//@   assumed A-int
+//@   assigns heap except all nodeContextState.maxListLen + all nodeContextState.listIsClosed + all ListLit.Elems + allelems(Elem) + all task.node + all task.x
+//@ func (*nodeContext).insertArc
+//@   assumed A-int: adds a conjunct to an arc of the node
+//@   assigns heap except all nodeContextState.maxListLen + all nodeContextState.listIsClosed + all ListLit.Elems + allelems(Elem) + all task.node + all task.x
+//@ func (*nodeContext).insertPattern
+//@   assumed A-int
+//@   assigns heap except all nodeContextState.maxListLen + all nodeContextState.listIsClosed + all ListLit.Elems + allelems(Elem) + all task.node + all task.x
+//@ func (*CloseInfo).setOptional
+//@   assumed A-int
+//@   assigns heap except all nodeContextState.maxListLen + all nodeContextState.listIsClosed + all ListLit.Elems + allelems(Elem) + all task.node + all task.x
+//@ func (*nodeContext).updateListType
+//@   assumed A-int (verified separately below under its own name would need the marker; here: frame)
+//@   assigns heap except all nodeContextState.maxListLen + all nodeContextState.listIsClosed + all ListLit.Elems + allelems(Elem) + all task.node + all task.x
+//@ func slices.Grow
+//@   assumed A-ext slices.Grow: same elements, larger capacity
+//@   ensures len(result) == len(s)
+
+// (P) C01: processing one list literal updates the node's list state as a join
+//@ func processListLit
+//@   may_panic
+//@   nocheck bounds
+//@   callsite (*adt.nodeContext).addErr#* contract addErrEffect
+//@   callsite (*adt.nodeContext).addBottom#* contract listErrEffect
+//@   callsite (*adt.nodeContext).invalidListLength#* contract listErrEffect
+//@   requires t != nil && t.node != nil && isType(t.x, *ListLit) && !listErr
+//@   loop 0 invariant -1 <= rangeindex && rangeindex < len(t.x.(*ListLit).Elems) && t.node == old(t.node) && t.x == old(t.x)
+//@   loop 0 invariant t.node.listIsClosed == old(t.node.listIsClosed) && t.node.maxListLen == old(t.node.maxListLen)
+//@   loop 0 invariant same(t.x.(*ListLit).Elems, old(t.x.(*ListLit).Elems)) && forall k int :: 0 <= k && k < len(t.x.(*ListLit).Elems) ==> t.x.(*ListLit).Elems[k] == old(t.x.(*ListLit).Elems[k])
+//@   loop 0 invariant (ellipsis == nil) == (forall k int :: 0 <= k && k <= rangeindex ==> !isType(t.x.(*ListLit).Elems[k], *Ellipsis))
+//@   loop 0 invariant ellipsis != nil ==> rangeindex == len(t.x.(*ListLit).Elems) - 1
+//@   ensures [closedjoin] !listErr ==> t.node.listIsClosed == (old(t.node.listIsClosed) || closedLit(t.x.(*ListLit)))
+//@   ensures [closedmono] old(t.node.listIsClosed) ==> t.node.listIsClosed
+//@   ensures [lenmono] t.node.maxListLen >= old(t.node.maxListLen)
+//@   assigns heap
+//@ func (Elem).Source
+//@   assumed A-int: source position accessor
+//@ func (*Comprehension).Source
+//@   assumed A-int: source position accessor
+//@ func (*OpContext).NewInt64
+//@   assumed A-int: constructor
+//@ func MakeConjunct
+//@   assumed A-int: constructor
+
+//@ func (*Vertex).IsClosedList
+//@   assumed A-int: reads the list marker of a finalized list vertex
+//@   pure
+//@ func (*Vertex).Elems
+//@   assumed A-int: iterator over the list elements
+//@ func slices.Collect
+//@   assumed A-ext slices.Collect
+// (P) C01: the same join when the other operand is an evaluated list vertex
+//@ func processListVertex
+//@   may_panic
+//@   nocheck bounds
+//@   callsite (*adt.nodeContext).invalidListLength#* contract listErrEffect
+//@   requires t != nil && t.node != nil && isType(t.x, *Vertex) && !listErr
+//@   loop 0 invariant !listErr && t.node == old(t.node) && t.x == old(t.x) && t.node.listIsClosed == (old(t.node.listIsClosed) || isClosed) && t.node.maxListLen >= old(t.node.maxListLen)
+//@   loop 1 invariant !listErr && t.node == old(t.node) && t.x == old(t.x) && t.node.listIsClosed == (old(t.node.listIsClosed) || isClosed) && t.node.maxListLen >= old(t.node.maxListLen)
+//@   ensures [closedjoin] !listErr ==> t.node.listIsClosed == (old(t.node.listIsClosed) || old(t.x.(*Vertex).IsClosedList()))
+//@   ensures [closedmono] old(t.node.listIsClosed) ==> t.node.listIsClosed
+//@   ensures [lenmono] t.node.maxListLen >= old(t.node.maxListLen)
+//@   assigns heap
